@@ -382,6 +382,29 @@ func checkTree(r *vh.R, t *TreeCase, tmp string) (*bundle.Bundle, bool) {
 			return nil, false
 		}
 	}
+	// "its own URL redirecting there": the redirect of an index.html, resolved against that
+	// exchange's own URL, must be - octet for octet, as a client matching URLs compares them - the
+	// URL of the exchange that delivers the file. (Which of several equivalent spellings of the
+	// base URL's escapes the tool uses is not prescribed - only that it uses one.)
+	byURL := map[string]int{}
+	for _, e := range b.Exchanges {
+		byURL[e.Request.URL.String()] = e.Response.Status
+	}
+	for _, e := range b.Exchanges {
+		u := e.Request.URL
+		if e.Response.Status == 301 {
+			loc, perr := url.Parse(e.Response.Header.Get("Location"))
+			if perr != nil {
+				r.Failf("index-redirect", "unparsable Location %q", e.Response.Header.Get("Location"))
+				return nil, false
+			}
+			target := u.ResolveReference(loc).String()
+			if st, ok := byURL[target]; !ok || st != 200 {
+				r.Failf("index-redirect-target", "exchange %q redirects to %q, but the bundle has no exchange with status 200 under exactly that URL (%s)\n  %s", u, target, g.cmdline, ctx)
+				return nil, false
+			}
+		}
+	}
 	for k, w := range model {
 		if !seen[k] {
 			r.Failf("missing-exchange", "no exchange for %s (expected decoded URL path %q); the bundle has %d exchanges for %d expected (%s)\n  %s", w.what, k, len(b.Exchanges), len(model), g.cmdline, ctx)
@@ -422,7 +445,9 @@ var (
 		"INDEX.HTML", "index.htm", "index.html.bak", "xindex.html", "a&b=c;d+e.txt", " lead", "trail ", "..."}
 	baseURLs = []string{"https://a.example/", "https://a.example/base/", "https://a.example/base", "https://b.example/", "https://c.example/x/y/",
 		"https://a.example", "https://www.a.example/", "https://x.w.example/app/", "https://a.example:8443/", "https://a.example/sp%20ace/",
-		"http://a.example/d/", "https://b.example/deep/er/page.html", "https://c.example/base"}
+		"http://a.example/d/", "https://b.example/deep/er/page.html", "https://c.example/base",
+		// legal escapes that are not in Go's canonical form (an escaped unreserved character, lower-case hex)
+		"https://a.example/%7Euser/", "https://a.example/caf%c3%a9/", "https://a.example/a%2Db/x", "https://a.example/%41/"}
 )
 
 func sanitizeF7(s string) string {
